@@ -5,9 +5,14 @@ import (
 	"encoding/json"
 	"fmt"
 	"math"
+	"strconv"
+	"strings"
 	"time"
 
+	"0chain.net/core/encryption"
+
 	"verifh/mon"
+	"verifh/snap"
 	"verifh/world"
 )
 
@@ -950,12 +955,68 @@ type frModel struct {
 	Key    map[string]string
 	Nonces map[string]map[int64]bool
 	Order  map[string][]int64
+	// limits of the assigner's last successful registration the monitor saw (tokens, converted like the contract converts the
+	// registration input) and the monitor's OWN running total of the grants it saw redeemed under that assigner's name
+	Lim map[string]frLimits
+	Sum map[string]uint64
+}
+
+type frLimits struct{ Indiv, Total uint64 }
+
+// frCoin converts a marker's free_tokens (ZCN, a JSON number) into tokens the way the statement's "amount" is defined on
+// chain: an exact decimal shift by ten places of the number as written (no rounding); negative values, more than ten
+// decimals and amounts beyond the int64 range have no token amount.
+func frCoin(f float64) (uint64, bool) {
+	if f < 0 || math.IsNaN(f) || math.IsInf(f, 0) {
+		return 0, false
+	}
+	str := strconv.FormatFloat(f, 'f', -1, 64)
+	ip, fp := str, ""
+	if i := strings.IndexByte(str, '.'); i >= 0 {
+		ip, fp = str[:i], str[i+1:]
+	}
+	if len(fp) > 10 || len(ip) > 9 {
+		return 0, false
+	}
+	for len(fp) < 10 {
+		fp += "0"
+	}
+	v, err := strconv.ParseUint(ip+fp, 10, 64)
+	if err != nil {
+		return 0, false
+	}
+	return v, true
+}
+
+// frLimitCoin converts a registration limit (ZCN float) into tokens: multiplied by 1e10 and truncated.
+func frLimitCoin(f float64) uint64 {
+	if v := f * 1e10; v > 0 && v < 1.8e19 {
+		return uint64(v)
+	}
+	return 0
+}
+
+// frReadPoolFraction reads free_allocation_settings.read_pool_fraction from the stored configuration of snapshot s.
+func frReadPoolFraction(h *Hist, s snap.Snapshot) float64 {
+	n := h.NodeByKey(s, stSC+encryption.Hash("storagesc_config"))
+	if n == nil {
+		return 0
+	}
+	var v struct {
+		Free struct {
+			Fraction float64 `json:"read_pool_fraction"`
+		} `json:"free_allocation_settings"`
+	}
+	if b, err := json.Marshal(n.Val); err != nil || json.Unmarshal(b, &v) != nil {
+		return 0
+	}
+	return v.Free.Fraction
 }
 
 func frModelOf(h *Hist) *frModel {
 	m, _ := h.Vars["frC24"].(*frModel)
 	if m == nil {
-		m = &frModel{Key: map[string]string{}, Nonces: map[string]map[int64]bool{}, Order: map[string][]int64{}}
+		m = &frModel{Key: map[string]string{}, Nonces: map[string]map[int64]bool{}, Order: map[string][]int64{}, Lim: map[string]frLimits{}, Sum: map[string]uint64{}}
 		h.Vars["frC24"] = m
 	}
 	return m
@@ -1019,14 +1080,149 @@ func init() {
 // series), then EVERY redeemed request is sent again byte for byte, markers with used nonces are signed afresh, a fresh
 // marker is redeemed and the replays are repeated. A second assigner reuses the first one's nonces (allowed: once per
 // assigner). Every step is an ordinary free_allocation_request transaction.
+//
+// Around it (frLimits*): in most histories the owner first sets free_allocation_settings.read_pool_fraction to a non-zero value
+// through update_settings + commit_settings_changes, and afterwards a fresh assigner with a SMALL total limit (2-4 x its
+// individual limit) has distinct, validly signed markers redeemed up to the total limit, exactly onto it and beyond it.
 func frScenario(h *Hist, mons []Monitor) {
 	st := h.S.St
 	r := h.R.Fork("fr-scenario")
 	st.NoHostile = true
 	defer func() { st.NoHostile = false }()
+	rl := r.Fork("fr-limits")
+	if rl.Chance(0.75) {
+		frSetFraction(h, rl)
+	}
+	if rl.Chance(0.5) {
+		frOrderPhase(h, r)
+		frLimitPhase(h, rl)
+	} else {
+		frLimitPhase(h, rl)
+		frOrderPhase(h, r)
+	}
+	h.EndBlock()
+}
+
+// frSetFraction: the owner stages a non-zero read pool fraction of free allocations, a miner commits the staged settings.
+func frSetFraction(h *Hist, r *mon.Rand) {
+	st := h.S.St
+	v := []string{"0.1", "0.2", "0.25", "0.3", "0.4", "0.5"}[r.Intn(6)]
+	f := map[string]string{"free_allocation_settings.read_pool_fraction": v}
+	c := stCall(h, r, "update_settings", h.W.Owner, map[string]interface{}{"fields": f}, 0)
+	c.Meta["fields"], c.Meta["scenario"] = f, "fr"
+	if o := h.stInner(c); o.Outcome == "success" {
+		for k, v := range f {
+			st.Pending[k] = v
+		}
+		c = stCall(h, r, "commit_settings_changes", h.W.Miners[int(h.stExecRound())%len(h.W.Miners)], map[string]interface{}{}, 0)
+		c.Meta["scenario"] = "fr"
+		h.stInner(c)
+	}
+	h.stNextBlock(r, 10)
+	if run := h.Runs[h.Focus]; run != nil && frReadPoolFraction(h, h.Cur) > 0 {
+		run.Count("scenario_histories_with_read_pool_fraction_set", 1)
+		run.Count("scenario_read_pool_fraction:"+v, 1)
+	}
+}
+
+// frLimitPhase: a fresh assigner with individual limit L and total limit k*L (k in 2..4, also 2.5 / 3.5 so that the remainder
+// is smaller than a full grant). Distinct valid markers (mostly of L, sometimes L/2 or L/4) are redeemed until the next one
+// would pass the total limit; a marker overshooting the remainder (inside the individual limit) must be refused, the marker
+// of exactly the remainder must be accepted, and with the total used up every further marker - the smallest amount, L/2, L -
+// must be refused. Now and then the owner then raises the total limit by one grant: one more marker fits, the next does not.
+func frLimitPhase(h *Hist, r *mon.Rand) {
+	st := h.S.St
+	run := h.Runs[h.Focus]
+	count := func(what string, o *TxnObs) {
+		if run != nil {
+			run.Count("scenario_free_limit:"+what+"|"+o.Outcome, 1)
+		}
+	}
+	L := []float64{0.2, 0.5, 1, 2}[r.Intn(4)]
+	k := []float64{2, 3, 4, 2.5, 3.5}[r.Intn(5)]
+	as := &stAssigner{W: h.stWallet(fmt.Sprintf("assigner%d", st.next())), Used: map[int64]bool{}, Next: 1}
+	st.Assigners = append(st.Assigners, as)
+	register := func(total float64) bool {
+		c := stCall(h, r, "add_free_storage_assigner", h.W.Owner, map[string]interface{}{"name": as.W.ID, "public_key": as.W.PubKey, "individual_limit": L, "total_limit": total}, 0)
+		c.Meta["assigner"], c.Meta["scenario"] = as.W.ID, "fr"
+		if o := h.stInner(c); o.Outcome != "success" {
+			return false
+		}
+		as.Reg, as.Indiv, as.Total = true, uint64(L*1e10), uint64(total*1e10)
+		return true
+	}
+	if !register(L * k) {
+		return
+	}
+	redeem := func(tokens float64, mut string) *TxnObs {
+		blobbers, _ := frBlobbers(h, r)
+		recipient := h.stClient(r)
+		c := frBuildCall(h, r, &frSpec{As: as, AssignerName: as.W.ID, Recipient: recipient, Sender: recipient, Signer: as.W, Tokens: tokens, Nonce: frNonce(h, r, as, -1), Blobbers: blobbers, Mut: mut})
+		c.Meta["scenario"] = "fr"
+		o := h.stInner(c)
+		what := mut
+		if what == "" {
+			what = "within"
+		}
+		count(what, o)
+		if r.Chance(0.4) {
+			h.stNextBlock(r, 5)
+		}
+		return o
+	}
+	coinOf := func(tokens float64) uint64 { return uint64(math.Round(tokens * 1e10)) }
+	fill := func() bool { // redeem until the total limit is reached exactly
+		for step := 0; step < 12 && as.Redeemed < as.Total; step++ {
+			left := as.Total - as.Redeemed
+			tokens := L / []float64{1, 1, 1, 1, 2, 4}[r.Intn(6)]
+			what := ""
+			if coinOf(tokens) > left {
+				if r.Chance(0.6) {
+					redeem(tokens, "over-total-limit") // inside the individual limit, past the remainder
+				}
+				tokens, what = float64(left)/1e10, "exact-remainder"
+			} else if coinOf(tokens) == left {
+				what = "exact-remainder"
+			}
+			o := redeem(tokens, "")
+			if what != "" {
+				count(what, o)
+			}
+			if o.Outcome != "success" {
+				return false // free allocations cannot be created in this history (settings / blobbers / funds)
+			}
+		}
+		return as.Redeemed == as.Total
+	}
+	beyond := func(n int) {
+		for i := 0; i < n; i++ {
+			redeem([]float64{0.01, L, L / 2, L / 4, 0.0000000001, 0.05}[r.Intn(6)], "over-total-limit")
+		}
+	}
+	if !fill() {
+		return
+	}
+	if run != nil {
+		run.Count("scenario_free_limit_total_used_up", 1)
+	}
+	h.stNextBlock(r, 20)
+	beyond(2 + r.Intn(3))
+	if r.Chance(0.4) && register(float64(as.Total)/1e10+L) { // the owner grants this assigner one more marker's worth
+		if fill() {
+			if run != nil {
+				run.Count("scenario_free_limit_total_used_up_after_raise", 1)
+			}
+			beyond(1 + r.Intn(2))
+		}
+	}
+}
+
+// frOrderPhase is the out-of-order / replay part described above.
+func frOrderPhase(h *Hist, r *mon.Rand) {
+	st := h.S.St
 	var regd []*stAssigner
 	for _, as := range st.Assigners {
-		if as.Reg {
+		if as.Reg && as.Total >= as.Redeemed+1e10 { // room for this phase's markers (not an assigner whose total is used up)
 			regd = append(regd, as)
 		}
 	}
@@ -1122,7 +1318,6 @@ func frScenario(h *Hist, mons []Monitor) {
 	// (4) a fresh marker below / between the redeemed ones, then the replays once more
 	redeem(as, frNonce(h, r, as, []int{0, 1, 5}[r.Intn(3)]), "")
 	again()
-	h.EndBlock()
 }
 
 // ---- logical time -----------------------------------------------------------------------------------------------------------
